@@ -93,6 +93,8 @@ CORPUS = [
     ("small-negative-gpath-gpoint-offsets", H + "table(glyph) cA = glyphid(3..6) {pt.gpoint = 3; pt.gpath = -5}; cB = glyphid(7..10) {q.gpoint = -2}; endtable;\ntable(pos) cA cB {attach {to = @1; at = pt; with = q}}; endtable;\n", ["-q", "-offsets", "p.gdl", "in.ttf", "out.ttf"], {}),
     ("point-assigned-from-point-offsets", H + "table(glyph) cA = glyphid(3..6) {p1 = point(10m, 20m, 3m, 4m); p2 = p1}; cB = glyphid(7..10); endtable;\n" + OKRULE, ["-q", "-offsets", "p.gdl", "in.ttf", "out.ttf"], {}),
     ("stretch-above-16-bits-at-level-1", H + "table(glyph) cA = glyphid(3..6) {justify.1.stretch = 70000m}; cB = glyphid(7..10); endtable;\n" + OKRULE, None, {}),
+    ("attribute-on-deleted-item", H + G + "table(sub) cA cB > cC _ {user1 = 2}; endtable;\n", None, {}),
+    ("attributes-on-two-deleted-items", H + G + "table(sub) cA cB cC > cC _ {user1 = 2} _ {user2 = 3; user1 = 1}; cB > cA; endtable;\n", None, {}),
     ("family-name-200", H + G + OKRULE, None, {"family": "F" * 200}),
     ("family-name-1000", H + G + OKRULE, None, {"family": "F" * 1000}),
     ("codepoint-to-ffff", H + "table(glyph) cA = codepoint(65..65535); cB = glyphid(7..9); endtable;\ntable(sub) cA > cB; endtable;\n", None, {}),
